@@ -28,6 +28,21 @@ pub enum COp {
     Amend(u64, u64),
     Move(u64),
     Read,
+    /// price move through another update kind: 1 = UpdatePriceAndQuantity, 2 = Replace (other price)
+    MoveVia(u8, u64),
+    /// same-price amendment through another update kind: 1 = UpdatePriceAndQuantity, 2 = Replace (level price)
+    AmendVia(u8, u64, u64),
+}
+
+impl COp {
+    /// the operation as the oracles see it (the update kind does not matter to them)
+    pub fn canon(&self) -> COp {
+        match *self {
+            COp::MoveVia(_, id) => COp::Move(id),
+            COp::AmendVia(_, id, n) => COp::Amend(id, n),
+            o => o,
+        }
+    }
 }
 
 #[derive(Clone, Copy, Debug, PartialEq, Eq, Hash, PartialOrd, Ord, Serialize)]
@@ -43,6 +58,10 @@ pub enum Book {
     /// a level that is not fresh: S10#1 S5#2 S3#3, then (before the threads start) #3 is cancelled and #1 is
     /// amended to the quantity it already has - the ticket queue holds a stale and a duplicate ticket
     B7,
+    /// a fully hidden auto-replenishing reserve order in front: RS(0,4,thr 1,amt 2,auto) S5
+    B8,
+    /// a large book: 70 Standard(2) orders #100..#169
+    B9,
 }
 
 /// operations applied to the book before the threads start (start from a non-initial state)
@@ -69,6 +88,8 @@ pub fn book_orders(b: Book) -> Vec<Ord_> {
         Book::B3 => vec![mk_ts(Tmpl::RS36, 1, p, 1), mk_ts(Tmpl::S5, 2, p, 2)],
         Book::B4 => vec![mk_ts(Tmpl::RSn, 1, p, 1), mk_ts(Tmpl::S5, 2, p, 2)],
         Book::B6 => vec![mk_ts(Tmpl::IC23, 1, p, 1), mk_ts(Tmpl::RS36, 2, p, 2)],
+        Book::B8 => vec![mk_ts(Tmpl::RSh, 1, p, 1), mk_ts(Tmpl::S5, 2, p, 2)],
+        Book::B9 => (0..70).map(|i| crate::seq_level::bulk_order(i, p)).collect(),
         Book::B7 => vec![
             mk_ts(Tmpl::S10, 1, p, 1),
             mk_ts(Tmpl::S5, 2, p, 2),
@@ -151,6 +172,7 @@ pub struct Exec {
 }
 
 struct Shared {
+    book: Vec<Ord_>,
     level: PriceLevel,
     generator: UuidGenerator,
     results: RefCell<Vec<Vec<OpResult>>>,
@@ -193,6 +215,39 @@ fn run_op(sh: &Shared, tid: usize, op: COp) -> OpResult {
                 new_quantity: n,
             },
         ))),
+        COp::MoveVia(k, id) => OpResult::Updated(upd_obs(&sh.level.update_order(if k == 1 {
+            OrderUpdate::UpdatePriceAndQuantity {
+                order_id: oid(id),
+                new_price: OTHER_PRICE,
+                new_quantity: 1,
+            }
+        } else {
+            OrderUpdate::Replace {
+                order_id: oid(id),
+                price: OTHER_PRICE,
+                quantity: 1,
+                side: sh
+                    .book
+                    .iter()
+                    .find(|o| same_id(o_id(o), oid(id)))
+                    .map(o_side)
+                    .unwrap_or(pricelevel::Side::Buy),
+            }
+        }))),
+        COp::AmendVia(k, id, n) => OpResult::Updated(upd_obs(&sh.level.update_order(if k == 1 {
+            OrderUpdate::UpdatePriceAndQuantity {
+                order_id: oid(id),
+                new_price: LEVEL_PRICE,
+                new_quantity: n,
+            }
+        } else {
+            OrderUpdate::Replace {
+                order_id: oid(id),
+                price: LEVEL_PRICE,
+                quantity: n,
+                side: pricelevel::Side::Buy,
+            }
+        }))),
         COp::Read => {
             let s = sh.level.snapshot();
             OpResult::Read(s.visible_quantity, s.hidden_quantity, s.order_count)
@@ -211,7 +266,7 @@ fn supply_bound(prog: &Program) -> (u128, usize) {
                     total += o_tot(&added_order(*op, tid));
                     count += 1;
                 }
-                COp::Amend(_, n) => total += *n as u128,
+                COp::Amend(_, n) | COp::AmendVia(_, _, n) => total += *n as u128,
                 _ => {}
             }
         }
@@ -276,6 +331,7 @@ pub fn execute(prog: &Program, prefix: &[u8], cfg: &ExecCfg) -> Exec {
         let _ = level.update_order(u);
     }
     let shared = Rc::new(Shared {
+        book: book_orders(prog.book),
         level,
         generator,
         results: RefCell::new(vec![vec![]; prog.threads.len()]),
@@ -437,7 +493,7 @@ fn op_of(prog: &Program, holder: (i8, u8)) -> Option<COp> {
     prog.threads
         .get(holder.0 as usize)
         .and_then(|t| t.get(holder.1 as usize))
-        .copied()
+        .map(|o| o.canon())
 }
 
 pub fn evaluate(prog: &Program, ex: &Exec, want_c14: bool) -> Vec<Finding> {
@@ -584,7 +640,7 @@ pub fn evaluate(prog: &Program, ex: &Exec, want_c14: bool) -> Vec<Finding> {
     let mut all_ops: Vec<((i8, u8), COp, Option<&OpResult>)> = vec![];
     for (tid, t) in prog.threads.iter().enumerate() {
         for (i, op) in t.iter().enumerate() {
-            all_ops.push(((tid as i8, i as u8), *op, ex.results[tid].get(i)));
+            all_ops.push(((tid as i8, i as u8), op.canon(), ex.results[tid].get(i)));
         }
     }
     all_ops.push(((-1, 1), COp::Match(DRAIN_QTY), Some(&ex.drain)));
@@ -692,7 +748,7 @@ pub fn evaluate(prog: &Program, ex: &Exec, want_c14: bool) -> Vec<Finding> {
     let mut cancelled: HashMap<u128, u128> = HashMap::new();
     for (tid, rs) in ex.results.iter().enumerate() {
         for (i, r) in rs.iter().enumerate() {
-            match (prog.threads[tid][i], r) {
+            match (prog.threads[tid][i].canon(), r) {
                 (_, OpResult::Matched(m, _)) => {
                     for (mk, q) in &m.fills {
                         *executed.entry(*mk).or_default() += *q as u128;
@@ -901,7 +957,7 @@ pub fn evaluate(prog: &Program, ex: &Exec, want_c14: bool) -> Vec<Finding> {
             .count();
         let removed = prelude_removed + ex.results.iter().enumerate().map(|(tid, rs)| {
             rs.iter().enumerate().filter(|(i, r)| {
-                matches!(prog.threads[tid][*i], COp::Cancel(_) | COp::Move(_))
+                matches!(prog.threads[tid][*i].canon(), COp::Cancel(_) | COp::Move(_))
                     && matches!(r, OpResult::Updated(UpdObs::Order(_)))
             }).count()
         }).sum::<usize>();
